@@ -487,6 +487,56 @@ Definition index_set (x i v : value) (w : world) : pres world :=
   | _ => PErr
   end.
 
+(* x[lo:hi:step] *)
+Definition as_index (v : value) (n : Z) (dflt : Z) : pres Z :=
+  match v with
+  | VNone => POk dflt
+  | VInt i => POk (if i <? 0 then i + n else i)
+  | _ => PErr
+  end.
+
+Fixpoint slice_up (fuel : nat) (i e s : Z) : list nat :=
+  match fuel with
+  | O => []
+  | S fuel => if i <? e then Z.to_nat i :: slice_up fuel (i + s) e s else []
+  end.
+Fixpoint slice_down (fuel : nat) (i e s : Z) : list nat :=
+  match fuel with
+  | O => []
+  | S fuel => if e <? i then Z.to_nat i :: slice_down fuel (i + s) e s else []
+  end.
+
+Definition slice_indices (n : nat) (lo hi step : value) : pres (list nat) :=
+  let zn := Z.of_nat n in
+  plet st <- (match step with VNone => POk 1 | VInt s => if s =? 0 then PErr else POk s | _ => PErr end);
+  if 0 <? st then
+    plet a <- as_index lo zn 0;
+    plet b <- as_index hi zn zn;
+    let a := Z.max 0 (Z.min a zn) in
+    let b := Z.max 0 (Z.min b zn) in
+    POk (slice_up n a b st)
+  else
+    plet a <- as_index lo zn (zn - 1);
+    plet b <- as_index hi zn (-1);
+    let a := if zn <=? a then zn - 1 else a in
+    let b := if b <? -1 then -1 else b in
+    POk (slice_down n a b st).
+
+Definition pick {A} (l : list A) (ix : list nat) : list A :=
+  flat_map (fun i => match nth_error l i with Some a => [a] | None => [] end) ix.
+
+Definition slice_op (x lo hi step : value) (w : world) : pres (value * world) :=
+  match x with
+  | VStr s => plet ix <- slice_indices (String.length s) lo hi step;
+              POk (VStr (String.concat "" (map (fun i => substring i 1 s) ix)), w)
+  | VTuple vs => plet ix <- slice_indices (length vs) lo hi step; POk (VTuple (pick vs ix), w)
+  | VRef a => match get_obj w a with
+              | Some (OList vs _) => plet ix <- slice_indices (length vs) lo hi step; POk (alloc_list (pick vs ix) w)
+              | _ => PErr end
+  | VRange _ _ _ => PUnsup "range-slice"
+  | _ => PErr
+  end.
+
 (* is k a key of dict d?  (used for the duplicate-key rule of dict displays) *)
 Definition index_get_opt (d k : value) (w : world) : pres bool :=
   match d with
